@@ -374,8 +374,20 @@ func bjjFaults() []bjjFault {
 			p.IssuerData.State.Value = hexOfInt(r.BigBelow(poseidonQ()))
 			x.res.mode = "published"
 		}},
-		{name: "state-nil", apply: func(s *verifySetup, p *verifiable.BJJSignatureProof2021, x *bjjCtx, r *Rng) { p.IssuerData.State.Value = nil }},
-		{name: "state-bad-hex", apply: func(s *verifySetup, p *verifiable.BJJSignatureProof2021, x *bjjCtx, r *Rng) { p.IssuerData.State.Value = strp("zz") }},
+		{name: "claims-root-omitted-state-consistent-with-that", apply: func(s *verifySetup, p *verifiable.BJJSignatureProof2021, x *bjjCtx, r *Rng) {
+			// no claims tree root, and a state that is H(0, revocation root, roots root): consistent, published - but there is no tree
+			// the auth claim could be included in
+			p.IssuerData.State.ClaimsTreeRoot = nil
+			st, _ := poseidon.Hash([]*big.Int{big.NewInt(0), s.is.revs.Root().BigInt(), s.is.roots.Root().BigInt()})
+			p.IssuerData.State.Value = hexOfInt(st)
+			x.res.mode = "published"
+		}},
+		{name: "state-nil", apply: func(s *verifySetup, p *verifiable.BJJSignatureProof2021, x *bjjCtx, r *Rng) {
+			p.IssuerData.State.Value = nil
+		}},
+		{name: "state-bad-hex", apply: func(s *verifySetup, p *verifiable.BJJSignatureProof2021, x *bjjCtx, r *Rng) {
+			p.IssuerData.State.Value = strp("zz")
+		}},
 		{name: "claims-root-nil", apply: func(s *verifySetup, p *verifiable.BJJSignatureProof2021, x *bjjCtx, r *Rng) {
 			p.IssuerData.State.ClaimsTreeRoot = nil
 		}},
@@ -383,7 +395,9 @@ func bjjFaults() []bjjFault {
 			p.IssuerData.ID = NewIssuer(r, 0).did.String()
 			x.res.mode = "unpublished"
 		}},
-		{name: "did-malformed", apply: func(s *verifySetup, p *verifiable.BJJSignatureProof2021, x *bjjCtx, r *Rng) { p.IssuerData.ID = "not a did" }},
+		{name: "did-malformed", apply: func(s *verifySetup, p *verifiable.BJJSignatureProof2021, x *bjjCtx, r *Rng) {
+			p.IssuerData.ID = "not a did"
+		}},
 		{name: "resolver-unpublished-later-state", apply: func(s *verifySetup, p *verifiable.BJJSignatureProof2021, x *bjjCtx, r *Rng) {
 			s.makeLater(r)
 			*p = *s.is.SignBJJ(s.claim)
@@ -438,7 +452,9 @@ func bjjFaults() []bjjFault {
 		{name: "status-nonce-mismatch", apply: func(s *verifySetup, p *verifiable.BJJSignatureProof2021, x *bjjCtx, r *Rng) {
 			p.IssuerData.CredentialStatus = map[string]any{"id": "https://status.example/auth", "type": "SparseMerkleTreeProof", "revocationNonce": float64(s.is.authNonce + 1)}
 		}},
-		{name: "status-missing", apply: func(s *verifySetup, p *verifiable.BJJSignatureProof2021, x *bjjCtx, r *Rng) { p.IssuerData.CredentialStatus = nil }},
+		{name: "status-missing", apply: func(s *verifySetup, p *verifiable.BJJSignatureProof2021, x *bjjCtx, r *Rng) {
+			p.IssuerData.CredentialStatus = nil
+		}},
 		{name: "status-without-type", apply: func(s *verifySetup, p *verifiable.BJJSignatureProof2021, x *bjjCtx, r *Rng) {
 			p.IssuerData.CredentialStatus = map[string]any{"id": "https://status.example/auth", "revocationNonce": float64(s.is.authNonce)}
 		}},
@@ -455,7 +471,9 @@ func bjjFaults() []bjjFault {
 			x.statusMod = func(rs *verifiable.RevocationStatus) { rs.MTP.Existence = !rs.MTP.Existence }
 		}},
 		{name: "status-state-inconsistent", apply: func(s *verifySetup, p *verifiable.BJJSignatureProof2021, x *bjjCtx, r *Rng) {
-			x.statusMod = func(rs *verifiable.RevocationStatus) { rs.Issuer.RevocationTreeRoot = hexOfInt(r.BigBelow(poseidonQ())) }
+			x.statusMod = func(rs *verifiable.RevocationStatus) {
+				rs.Issuer.RevocationTreeRoot = hexOfInt(r.BigBelow(poseidonQ()))
+			}
 		}},
 		{name: "status-state-nil", apply: func(s *verifySetup, p *verifiable.BJJSignatureProof2021, x *bjjCtx, r *Rng) {
 			x.statusMod = func(rs *verifiable.RevocationStatus) { rs.Issuer.State = nil }
